@@ -3,7 +3,7 @@ from __future__ import annotations
 
 import ast
 
-from ..astq import (arg, const, ext_names, handler_catches_all, handler_classes, inside, is_name, loc, names_in,
+from ..astq import (arg, canon, const, ext_names, handler_catches_all, handler_classes, inside, is_name, loc, names_in,
                     stmt_of, in_body)
 from ..cfg import CFG, any_call_may_raise
 from ..model import AnalysisError, Func, head, norm
@@ -457,7 +457,7 @@ def rule_retry_loop(ctx, rid, r):
     rets = [n for n in cf.own_nodes() if isinstance(n, ast.Return)]
     p = cf.pos_params[0]
     ok = any(is_name(x.value, p) and any(norm(t_) == f"callable({p})" and pol for t_, pol in E.path_condition(cf.module, x, cf.node)) for x in rets) \
-        and any(isinstance(x.value, ast.Call) and norm(x.value) == f"create_retry(1 if {p} is None else {p})" for x in rets)
+        and any(isinstance(x.value, ast.Call) and canon([x.value], set(cf.params) | {"create_retry"}) == canon([f"create_retry(1 if {p} is None else {p})"], set(cf.params) | {"create_retry"}) for x in rets)
     ctx.ob(rid, f"{cf.short}/coercion", ok, loc(cf), "callable passed through; None -> 1 attempt; n -> create_retry(n)" if ok else
            "retry coercion changed")
 
